@@ -319,6 +319,7 @@ def run(prog, R):
     # ---------------------------------------------------------------- SER
     ser_rules(prog, R)
     ser_validation_rules(prog, R)
+    utf8_rules(prog, R)
 
 
 def closure_separator(cb):
@@ -626,8 +627,19 @@ def epos_rules(prog, R, trimmer):
                 return len(rs) == 1 and rs[0][0] == 'arg' and rs[0][1] == 1 and [q[1] for q in rs[0][-1]] == ['position', 'line']
             def is_off(rs):
                 return len(rs) == 1 and rs[0][0] == 'arg' and rs[0][1] == 2 and not rs[0][-1]
-            ok = (is_line(ra[0]) and is_off(ra[1])) or (is_line(ra[1]) and is_off(ra[0]))
+            def off_from_param(op_):
+                # an offset looked up from the parameter (`match part { Head => 0, Seq => 1, .. }`): literals selected by parameter 2
+                dd_ = data_deps(f, op_, du)
+                return bool(dd_) and all(d_[0] == 'const' or (d_[0] == 'arg' and d_[1] == 2) or d_[0] == 'discr' for d_ in dd_) and any(d_[0] == 'const' for d_ in dd_)
+            ok = (is_line(ra[0]) and (is_off(ra[1]) or off_from_param(o[1]))) or (is_line(ra[1]) and (is_off(ra[0]) or off_from_param(o[0])))
         R.add('UNIT-4', f, 'error-line', ok, site(f, s.line), 'ErrorPosition.line = self.position.line + line_offset: %s' % ok)
+        # EPOS-5 (seeds C02-r5a / C06-r5a): wherever this function cuts the header out of the buffer, the conditions of the path
+        # (predicates like `has_head()` evaluated in place) imply a non-negative extent - a header line that is a bare line feed
+        # has none
+        hg = head_guard_ok(prog, f, inline=True, strict=True)
+        if hg is not None:
+            R.add('EPOS-5', f, 'header-slice-guarded', hg, site(f, f.span['lo']),
+                  'every path that slices the header line runs under conditions implying start + 1 <= end - 1 of that line: %s' % hg)
         # EPOS-5
         some_blocks = []
         for blk in f.blocks:
@@ -1269,7 +1281,7 @@ def decides_markers(b):
     return False
 
 
-def head_guard_ok(prog, f):
+def head_guard_ok(prog, f, inline=False, strict=False):
     """every path of the position helper that slices the header (BufferPosition::head) is taken under
     conditions that imply a non-negative slice extent hi - lo (solved symbolically, whatever the guard looks like)"""
     from scev import Sym, Aff, Path, slice_range, linear_preds, preds_hold
@@ -1285,14 +1297,16 @@ def head_guard_ok(prog, f):
     init = Path()
     init.env[1] = Aff.sym(('self',))
     n = 0
-    for p in Sym(prog, f).run(0, init=init):
+    for p in Sym(prog, f, inline=inline).run(0, init=init):
         if not any(prog.local_callee_body(t.callee) is hb[0] for (_, t, _) in p.effects):
             continue
         n += 1
         preds = linear_preds(p.conds, base)
-        if not preds or any(preds_hold(preds, u - ext.c) for u in (-1, -2, -(1 << 40))):
+        if not preds:
+            return None if strict else False
+        if any(preds_hold(preds, u - ext.c) for u in (-1, -2, -(1 << 40))):
             return False
-    return n > 0
+    return (n > 0) if not strict else (True if n > 0 else None)
 
 
 def len3_rule(prog, R):
@@ -1470,6 +1484,33 @@ def len2_rule(prog, R, trimmer):
                         R.add('LEN-2', b, 'eof-completion-asks-for-trimmed-comparison#%d' % n, okc, site(b, s.line), undecided=(not okc) and not called_v, detail=
                               'the record is completed at the end of the input (its last line has no terminator); the validator is %s the trimmed lengths' % ('told to compare' if okc else 'NOT told to compare'))
     R.floor('LEN-2', 2)
+
+
+def utf8_rules(prog, R):
+    """VIEW-6: the text accessors succeed exactly when the bytes are valid UTF-8: the verdict of every `str::from_utf8` of the
+    record code reaches the caller (returned, `?`, inside the returned Option/Result) - it is not turned into "no value".  """
+    from rules_err import SWALLOW, PROPAGATORS
+    R.rule('VIEW-6', 'the result of every str::from_utf8 in the record accessors reaches the caller: it is not swallowed (ok(), unwrap_or.., is_ok, dropped)')
+    n = 0
+    for b in prog.bodies.values():
+        if is_derive(b) or b.promoted_of is not None or not (b.file.endswith('fasta.rs') or b.file.endswith('fastq.rs') or b.file.endswith('lib.rs')):
+            continue
+        for x, t in b.calls():
+            if not (t.callee and t.callee.path in ('std::str::from_utf8', 'core::str::from_utf8') and t.dest.is_local()):
+                continue
+            n += 1
+            if t.dest.local == 0:
+                R.add('VIEW-6', b, 'utf8-verdict#%d' % n, True, site(b, t.line), 'the result is the return value')
+                continue
+            sinks = forward_sinks(b, t.dest.local, follow_refs=True, through=PROPAGATORS)
+            swallow = [nn for (k, nn, i, via) in sinks if k == 'call' and not via and nn.callee and nn.callee.path in SWALLOW and nn.callee.path != 'std::result::Result::map_err']
+            drops = [nn for (k, nn, i, via) in sinks if k == 'drop' and not via]
+            ret = any(k == 'ret' for (k, nn, i, via) in sinks) or any(k == 'call' and nn.callee and nn.callee.path == 'std::ops::Try::branch' for (k, nn, i, via) in sinks)
+            bad = bool(swallow) or (bool(drops) and not ret)
+            R.add('VIEW-6', b, 'utf8-verdict#%d' % n, not bad and ret, site(b, t.line),
+                  'result of from_utf8: %s' % ('swallowed by %s (an invalid text silently becomes "no value")' % swallow[0].callee.path if swallow else
+                                               'dropped' if bad else 'reaches the caller' if ret else 'ends in a place this rule does not follow'),
+                  undecided=(not bad) and not ret)
 
 
 def ser_validation_rules(prog, R):
